@@ -35,7 +35,7 @@ PosSample(i, n, p) ==
 
 MeanCase(fl, ty, style, ki, li, data, first) ==
     [op |-> "mean.ci", fl |-> fl, ty |-> ty, style |-> style, conf |-> Conf(ki, li), li |-> li,
-     data |-> data, first |-> first, grp |-> (IF Part = "c10seq" THEN "c10" ELSE Part)]
+     data |-> data, first |-> first, grp |-> (IF Part \in {"c10seq", "c10extra"} THEN "c10" ELSE Part)]
 
 VARIABLE done
 Init == done = FALSE
@@ -80,6 +80,25 @@ C10Part(d) ==
   /\ \A n \in 4..(IF Thorough THEN 60 ELSE 40) : \A qa \in {4, 11, 16, 27} :
        AllConfs(LAMBDA ki, li, f : Emit([op |-> "quant.ranks", n |-> n, q |-> [n |-> qa, p |-> -5], qa |-> qa,
                                          conf |-> Conf(ki, li), li |-> li, first |-> f, grp |-> Part]))
+
+\* constant samples (zero spread: the degenerate interval must still be of the requested kind) and the
+\* data-level quantile entry points (distinct values: the key of an order statistic is its rank + 1)
+ConstData(v, n) == [rle |-> << <<v, n>> >>, order |-> "asc"]
+QData(n, m, mul) == [i \in 1..n |-> (i * mul) % m]
+C10ExtraPart(d) ==
+  /\ \A ty \in {"f64", "f32"} : \A n \in {2, 5, 40} :
+       /\ AllConfs(LAMBDA ki, li, f : Emit(MeanCase("arith", ty, "ci", ki, li, ConstData(V(7, -2), n), f)))
+       /\ AllConfs(LAMBDA ki, li, f : Emit(MeanCase("arith", ty, "append", ki, li, ConstData(V(-3, 0), n), f)))
+       /\ AllConfs(LAMBDA ki, li, f : Emit(MeanCase("harm", ty, "ci", ki, li, ConstData(V(1, 3), n), f)))
+       /\ AllConfs(LAMBDA ki, li, f : Emit(MeanCase("geo", ty, "ci", ki, li, ConstData(V(1, 0), n), f)))
+       /\ AllConfs(LAMBDA ki, li, f : Emit(MeanCase("paired", ty, "ci", ki, li,
+                      [rle |-> [j \in 1..n |-> <<V(10 * j + 3, 0), 1>>], order |-> "asc"], f)
+                      @@ [datab |-> [rle |-> [j \in 1..n |-> <<V(10 * j, 0), 1>>], order |-> "asc"]]))
+  /\ \A ent \in {"ci", "sorted", "max_n", "max_1024"} : \A ty \in {"i32", "f64", "str"} :
+     \A sz \in {<<10, 11, 7>>, <<16, 17, 3>>, <<30, 31, 7>>} : \A qa \in {4, 16, 27} :
+       AllConfs(LAMBDA ki, li, f : Emit([op |-> "quant.data", entry |-> ent, ty |-> ty, data |-> QData(sz[1], sz[2], sz[3]),
+                                         n |-> sz[1], q |-> [n |-> qa, p |-> -5], qa |-> qa, qb |-> 32,
+                                         conf |-> Conf(ki, li), li |-> li, first |-> f, grp |-> "c10"]))
 
 \* The same groups with the LEVEL in the outer loop and the kind in the inner loop, to be executed on one
 \* thread: consecutive calls then share level and degrees of freedom and differ in the kind only.
@@ -164,5 +183,6 @@ C16Part(d) ==
 Next == /\ ~done
         /\ done' = TRUE
         /\ CASE Part = "c10" -> C10Part(done) [] Part = "c16" -> C16Part(done) [] Part = "c10seq" -> C10SeqPart(done)
+             [] Part = "c10extra" -> C10ExtraPart(done)
 Spec == Init /\ [][Next]_done
 =============================================================================
